@@ -18,8 +18,9 @@ CLAIMED = True
 LEVEL = "proof"
 TECHNIQUE = ("Lean 4 proofs (induction over insertion histories, over the steps of a location path and over trees; loop invariant of "
              "the binary search; refinement of the structural comparison to the index order) about a hand transcription of "
-             "MutableNodeRefList.cpp, DOMServices::isNodeAfter/isNodeAfterSibling, XPath::Union and the merging/axis part of "
-             "XPath::step, tied to the working tree by a lock-step correspondence run (real library vs compiled Lean model, same "
+             "MutableNodeRefList.cpp, DOMServices::isNodeAfter/isNodeAfterSibling, XPath::Union, the merging part of XPath::step "
+             "and the 13 axis walks of XPath.cpp, tied to the working tree by a translator obligation on the loop skeletons of the "
+             "walks and a lock-step correspondence run (real library vs compiled Lean model, same "
              "request stream, three document representations) plus a model-independent oracle on every implementation reply "
              "and a stylesheet-level oracle stage through the Xalan CLI")
 LEVEL_TEXT = ("Machine-checked for all inputs: (1) document order from the pre-order walk is a strict total order and coincides "
@@ -30,8 +31,11 @@ LEVEL_TEXT = ("Machine-checked for all inputs: (1) document order from the pre-o
               "same list; (4) several documents: lists stay grouped by document (never interleaved, no duplicate) for every history "
               "of inserts of any nodes; (5) XPath::Union is the document-ordered union and is commutative, associative and idempotent "
               "as list equalities; reverse/clearNulls/flag-trusting merge preserve order and flag; (6) every location path over the "
-              "13 axes with arbitrary predicates delivers a duplicate-free document-ordered set flagged document order (induction "
-              "over the steps; step merging and reverse-axis handling as in XPath::step). The behaviours of the code before the five "
+              "13 axes — each evaluated by its transcribed C++ walk, the walks of descendant/following/preceding/namespace proved "
+              "to deliver exactly the Recommendation's definition for every tree and context node — with arbitrary predicates "
+              "delivers a duplicate-free document-ordered set flagged document order (induction over the steps; step merging and "
+              "reverse-axis handling as in XPath::step); positional predicates on reverse axes count from the end of the "
+              "document-ordered list. The behaviours of the code before the five "
               "repairs found by this check are kept as partial theorems / counterexamples. The model is tied to the working tree by "
               "replaying generated documents, isNodeAfter matrices, MutableNodeRefList histories, XPath unions and EXSLT set "
               "identities on the real library and the compiled model, and by a stylesheet stage (key(), id(), document(), "
@@ -42,7 +46,8 @@ LEVEL_NOTE = ("Trusted: Lean kernel (leanchecker in the thorough tier); axioms p
               "(descendant, descendant-or-self, following, preceding, namespace) and the predicate evaluator enter the path theorem "
               "through their definition / as an arbitrary sub-list, not as transcriptions of the C++ walks; those walks, result-tree-"
               "fragment construction, key()/id()/document() and the EXSLT implementations are exercised only by the oracle stages. "
-              "One known finding remains (C12-rtf-nested-interleave: fragments whose construction overlaps interleave by index).")
+              "Known findings: C12-rtf-nested-interleave (fragments whose construction overlaps interleave by index); temporary: "
+              "C12-wrapper-attr-children (fix proposed).")
 DESIGN_REF = "DESIGN.md section 5, C12; design/C12.md"
 
 THEOREMS = [
@@ -67,11 +72,22 @@ THEOREMS = [
     "XalanModel.Props.C12.locationPath_sortedSet",
     "XalanModel.Props.C12.axes_sorted",
     "XalanModel.Props.C12.steps_sorted",
+    "XalanModel.Props.C12.walk_descendant_eq_def",
+    "XalanModel.Props.C12.walk_descendantOrSelf_eq_def",
+    "XalanModel.Props.C12.walk_following_eq_def",
+    "XalanModel.Props.C12.walk_preceding_eq_def",
+    "XalanModel.Props.C12.walk_namespace_eq_def",
+    "XalanModel.Props.C12.walkShapes_unchanged",
+    "XalanModel.Props.C12.reverseAxes",
+    "XalanModel.Props.C12.reverseAxis_position",
     "XalanModel.Props.C12.treeLocationPath_sortedSet",
     "XalanModel.Props.C12.multiDoc_interleave_counterexample",
     "XalanModel.Props.C12.multiDoc_duplicate_counterexample",
     "XalanModel.Props.C12.docNode_appended_counterexample",
 ]
+
+AXES = ["child", "attribute", "parent", "ancestor", "following-sibling", "preceding-sibling", "self", "ancestor-or-self",
+        "descendant", "descendant-or-self", "following", "preceding", "namespace"]
 
 _g = None
 
@@ -219,6 +235,18 @@ class Oracle:
                         "rep=%s doc=%s isNodeAfter(%d,%d)=%s for an ancestor/descendant pair (%d such pairs wrong)" % (
                             self.rep, self.docs[d][0], a, b, got, len(bad_rel)))
             return None
+        if op in ("axis", "axisp"):
+            if "?" in reply.split():
+                # a node that the structural walk of the document never reaches
+                a, = parse_nodes(t[1:2])
+                kind = self.docs[a[0]][1][a[1]] if a[0] in self.docs else "?"
+                if self.rep == "N" and kind == "a" and t[2] in ("child", "descendant", "descendant-or-self"):
+                    return ("wrapper-attr-children", "%s from attribute %s delivered %s" % (t[2], t[1], reply))
+                return ("axis-foreign-node", "%s from %s delivered %s" % (t[2], t[1], reply))
+            r = parse_list_reply(reply)
+            if r is not None and not is_docordered(r[1]):
+                return (self.classify(r[1], r[1]), "step %s::node() from %s delivered %s" % (t[2], t[1], reply))
+            return None
         if op in ("xp", "xpu"):
             r = parse_list_reply(reply)
             if r is None:
@@ -356,6 +384,15 @@ def make_sessions(r, nsessions, maxnodes, nhist, maxops, nxp, avoid_lt_on_n=Fals
         sizes = {d: len(g.parse_shape(sh, rep)[0]) for d, sh in shapes.items()}
         for d in shapes:
             s.cases.append(("afterall", ["afterall %d" % d]))
+        # one location step per axis from context nodes of every kind (document, element, attribute, namespace
+        # declaration, text, comment, PI): the transcribed walks against the real axis functions
+        for d in (shapes if (nsessions <= 2000 or si % 3 == 0) else []):      # thorough tier: every third session
+            n = sizes[d]
+            ctxs = list(range(n)) if n <= 12 else sorted(set([0, 1] + [r.below(n) for _ in range(10)]))
+            for cn in ctxs:
+                s.cases.append(("axis", ["axis d%d.%d %s" % (d, cn, a) for a in AXES]))
+                if r.chance(1, 3):
+                    s.cases.append(("axis", ["axisp d%d.%d %s %d" % (d, cn, a, r.range(1, 3)) for a in AXES]))
         for _ in range(nhist):
             style = "pure" if r.chance(3, 5) else "wild"
             s.cases.append(("hist-" + style, g.gen_history(r, sizes, maxops, style)))
@@ -519,12 +556,13 @@ def evaluate(ctx, h, sessions, variant, tag, record_cases=True):
             if iv != mv:
                 dis.append({"lines": [l], "impl": iv, "model": mv})
             continue
-        # model vs implementation ("-" = not modelled: operand queries)
-        if mv != "-" and iv != mv and (si, ci) not in seen_bad_case:
-            seen_bad_case.add((si, ci))
-            dis.append({"lines": s.header() + [x for x in s.cases[ci][1] if not x.startswith("#")], "impl": iv, "model": mv, "at": l})
         # the property on the implementation's reply
         bad = o.check(l, iv)
+        # model vs implementation ("-" = not modelled: operand queries); a reply on which the implementation itself
+        # violates the property is reported as that, not as a disagreement with the model
+        if mv != "-" and iv != mv and (si, ci) not in seen_bad_case and not (bad is not None and l.startswith("axis")):
+            seen_bad_case.add((si, ci))
+            dis.append({"lines": s.header() + [x for x in s.cases[ci][1] if not x.startswith("#")], "impl": iv, "model": mv, "at": l})
         if bad is not None:
             vio.append({"cls": bad[0], "what": "rep=%s %s" % (s.rep, bad[1]), "at": l,
                         "lines": s.header() + [x for x in s.cases[ci][1] if not x.startswith("#")]})
@@ -814,6 +852,7 @@ def run(ctx):
     flavor = os.environ.get("VERIF_C12_FLAVOR", "hooks")
     ctx.extra["flavor"] = flavor
     ctx.build(flavor)
+    ctx.translate("c12_walks")       # loop skeletons of the axis walks -> Generated/C12_WalkShapes.lean (walkShapes_unchanged)
     ctx.lean("XalanModel.Props.C12", THEOREMS, extra_targets=["xm_c12"])
     model = ctx.exe("xm_c12")
     impl = common.build_harness("c12_nodelist", ["c12_nodelist.cpp"], flavor=flavor)
@@ -901,6 +940,8 @@ def run(ctx):
             d = int(cl[0].split()[1])
             nontriv = len(g.parse_shape(s.shapes[d], s.rep)[0]) >= 4
             text = s.rep + "|" + s.shapes[d] + "|afterall"
+        elif kind == "axis":
+            nontriv = True
         elif kind.startswith("hist"):
             nontriv = sum(1 for x in cl if x.startswith("add")) >= 3
         else:
